@@ -23,8 +23,8 @@ theorem fact_translated_all :
       "duallane_DLValidateMemoDecorator_AnteHandle", "cosmoslane_CLRejectEthereumMsgsDecorator_AnteHandle",
       "cosmoslane_CLVestingMessagesAuthorizationDecorator_AnteHandle",
       "duallane_DLValidateBasicDecorator_AnteHandle", "keeper_msgServer_SubmitProofExternalOwnedAccount",
-      "evmlane_ELValidateBasicEoaDecorator_AnteHandle", "evmlane_ELSetupExecutionDecorator_AnteHandle",
-      "evmlane_ELEmitEventDecorator_AnteHandle"] := by
+      "indexer_TxIndexKey", "indexer_parseBlockNumberFromKey", "evmlane_ELValidateBasicEoaDecorator_AnteHandle",
+      "evmlane_ELSetupExecutionDecorator_AnteHandle", "evmlane_ELEmitEventDecorator_AnteHandle"] := by
   decide +kernel
 
 theorem fact_uninterpreted :
